@@ -243,7 +243,8 @@ class SnifferStream(base.EndToEndStream):
     def cases(self, tier, rng):
         from reuse import comment
         thorough = tier == "thorough"
-        entries = [e for e in G.table_entries() if e[2] not in ("UncommentableCommentStyle",)]
+        # (a `.license` file is its own FILE.license: nothing to route)
+        entries = [e for e in G.table_entries() if e[2] not in ("UncommentableCommentStyle", "EmptyCommentStyle")]
         unc = [e for e in G.table_entries() if e[2] == "UncommentableCommentStyle"]
         shorthands = list(comment.NAME_STYLE_MAP)
         for i in range(500 if thorough else 54):
